@@ -115,19 +115,37 @@ def c20_1(ctx: Ctx) -> RuleResult:
         cfg = cfg_of(ctx.repo, f)
         df = dataflow_of(ctx.repo, f)
         pf = PathFinder(cfg, df)
-        checks = set()
+        # tests of the exit status and the branch on which the status is known to be zero:
+        # `rc != 0` -> false branch, `rc == 0` -> true branch, `rc` -> false, `not rc` -> true.  A normal return is
+        # allowed only after such a branch was taken (`if rc != 0: raise` and `if rc == 0: return; raise` alike)
+        from ..pattern import norm as _norm
+
+        def is_status(x):
+            return (x[0] == "attr" and x[2] == "returncode") or (x[0] == "call" and x[1][0] == "attr" and x[1][2] in ("poll", "wait"))
+
+        zero_edge = {}
         partial = []
-        for n in nodes_in(f, ast.If):
-            if _mentions_status(ctx, f, n.test, pvar) and _has_raise(n):
-                if _status_test_covers_all_failures(ctx, f, n):
-                    checks.update(cfg.node_containing(n.test))
-                else:
-                    partial.append(n)
+        for n in nodes_in(f, (ast.If, ast.While)):
+            if not _mentions_status(ctx, f, n.test, pvar):
+                continue
+            t = _norm(ctx.X.value_at(f, n.test))
+            lab = None
+            if t[0] == "cmp" and t[1] in ("!=", "==") and ((is_status(t[2]) and t[3] == ("const", 0)) or (is_status(t[3]) and t[2] == ("const", 0))):
+                lab = "false" if t[1] == "!=" else "true"
+            elif is_status(t):
+                lab = "false"
+            elif t[0] == "unary" and t[1] == "not" and is_status(t[2]):
+                lab = "true"
+            if lab is None:
+                partial.append(n)
+                continue
+            for tn_ in cfg.node_containing(n.test):
+                zero_edge[tn_] = lab
         for pn in cfg.node_containing(call):
             starts = [m for m, lab in pn.succ if lab != "exc"]
             ok, wit = True, []
             for s0 in starts:
-                path = pf.find_path(s0, lambda m: m is cfg.exit, blocked=lambda m: m in checks, goal_at_start=True)
+                path = pf.find_path(s0, lambda m: m is cfg.exit, edge_ok=lambda a, b, lab: not (a in zero_edge and lab == zero_edge[a]), goal_at_start=True)
                 if path is not None:
                     ok, wit = False, describe_path(f, path)
             why = ""
